@@ -56,7 +56,7 @@ _QUERY_ASSUME = ["column names are resolved to positions by the harness (Header.
 PROPS["C03"] = dict(
     theorem_file="Properties/C03.v", kinds=_QUERY_KINDS, expected=_QUERY_EXPECTED,
     trusted=COMMON_TRUST + [FLOAT_TRUST, ORACLE_TRUST], assumptions=_QUERY_ASSUME,
-    level_text="Proof: Coq theorems (Properties/C03.v) over ALL tables and conditions: WHERE returns exactly the order-preserving sublist of rows whose condition is TRUE (an evaluation error is an error of the whole clause, never a partial result); CROSS/INNER/LEFT/RIGHT/FULL joins of the model equal their list-comprehension definitions, with membership characterisations (pairs with a TRUE condition; each unmatched row exactly once, NULL-padded; nothing else) and compositionality over contiguous ranges of left rows (the goroutine split). The model (Model/Query.v: sources incl. derived tables, joins nested to any depth, WHERE, select list) is tied to the code by running generated queries through parser.Parse + query.Select at cpu 1 and 4 and comparing rows (sequence for single sources, multiset for joins) with eval_query inside Coq. Common table expressions (several references) are expanded to derived tables; USING and NATURAL joins have no construct of their own in the model: the harness spells out their documented meaning (join on the equality of the named columns, one merged column per name taken from the left operand - the right one for RIGHT joins - with the other side's value where that is NULL, then the remaining columns of both sides) as a projection over the modelled join, and the implementation is compared with that. Partial: LATERAL, sub-queries in expressions, recursive CTEs and name resolution are not modelled.",
+    level_text="Proof: Coq theorems (Properties/C03.v) over ALL tables and conditions: WHERE returns exactly the order-preserving sublist of rows whose condition is TRUE (an evaluation error is an error of the whole clause, never a partial result); CROSS/INNER/LEFT/RIGHT/FULL joins of the model equal their list-comprehension definitions, with membership characterisations (pairs with a TRUE condition; each unmatched row exactly once, NULL-padded; nothing else) and compositionality over contiguous ranges of left rows (the goroutine split). The model (Model/Query.v: sources incl. derived tables, joins nested to any depth, WHERE, select list) is tied to the code by running generated queries through parser.Parse + query.Select at cpu 1 and 4 and comparing rows (sequence for single sources, multiset for joins) with eval_query inside Coq. Common table expressions (several references) are expanded to derived tables; USING and NATURAL joins are a derived form of the model (Model/Using.v src_using): the join on the equality of the named columns followed, row by row and in the join's order, by one merged column per name (the left operand's value - the right one's for RIGHT joins - or the other side's where that is NULL) and the remaining columns of both sides (C03_using_join_merges_the_named_columns_once); the harness computes only the column positions from the names. Partial: LATERAL, sub-queries in expressions, recursive CTEs and name resolution are not modelled.",
     level_note="Trusted: Coq kernel + vm_compute; primitive floats; Go harness incl. its resolution of column names to positions; string oracles. Join results are compared as multisets (the property does not fix join order).",
     design_ref="DESIGN.md section 5 (C03)")
 
